@@ -159,6 +159,10 @@ func DecodeType(data []byte, oid int) interface{} {
 }
 
 func decodeScalar(data []byte, oid int) interface{} {
+	// fixed-width types: a value shorter than the type's width cannot be decoded
+	if n, ok := fixedLengths[oid]; ok && len(data) < n {
+		return nil
+	}
 	switch oid {
 	// Boolean
 	case OidBool:
